@@ -290,22 +290,33 @@ Proof.
 Qed.
 
 (* the reference tree and the parse result of an operator expression *)
-Lemma opexpr_parse toks : operator_expression toks = true ->
-  exists T ns, pratt toks = Some (erase T) /\ parse_trimmed toks = Ok (nid T, ns) /\
-               denotes ns None T /\ size T <= length ns.
+Lemma opexpr_parse_strong toks : operator_expression toks = true ->
+  exists T ns its,
+    items_of toks 0 None false = Some its /\ Forall item_ranked its /\ spine_insert its = Some T /\
+    parse_trimmed toks = Ok (nid T, ns) /\
+    denotes ns None T /\ ordered T /\ lo T = 0 /\ (forall j, j < length ns -> has_id T j).
 Proof.
   intros H. destruct toks as [|v rest]; [discriminate|]. unfold operator_expression in H.
   apply andb_true_iff in H. destruct H as [_ Hop].
   destruct (run_opexpr (length (v :: rest)) (v :: rest) 0 init_state false false 0 ([], None) None Hop
               init_gpend eq_refl eq_refl eq_refl) as (st' & fs' & t' & its & Hrun & G' & Hng & Hitems & Hsr & Hrk).
   destruct (parse_trimmed_gcompl (v :: rest) st' fs' t' ltac:(discriminate) Hrun G' Hng) as (Hp & DT & OT).
+  destruct (cstruct_tree _ _ _ (gc_struct _ _ _ _ G')) as (_ & _ & LoT & CovT).
   set (T := close fs' t') in *.
   assert (Hins : spine_insert its = Some T).
   { unfold spine_insert. cbn [nodes init_state length] in Hsr. rewrite Hsr, (no_groups_iff _ Hng). reflexivity. }
-  exists T, (nodes st'). split; [|split; [exact Hp|split; [exact DT|]]].
+  exists T, (nodes st'), its. repeat split; assumption.
+Qed.
+
+Lemma opexpr_parse toks : operator_expression toks = true ->
+  exists T ns, pratt toks = Some (erase T) /\ parse_trimmed toks = Ok (nid T, ns) /\
+               denotes ns None T /\ size T <= length ns.
+Proof.
+  intros H. destruct (opexpr_parse_strong toks H) as (T & ns & its & Hitems & Hrk & Hins & Hp & DT & OT & _ & _).
+  exists T, ns. split; [|split; [exact Hp|split; [exact DT|]]].
   - unfold pratt. rewrite Hitems. rewrite (spine_insert_climb _ T _ Hrk Hins) by lia. reflexivity.
   - pose proof (ordered_size T OT) as Hsz.
-    assert (Hhi : hi T < length (nodes st')) by (eapply denotes_lt; [exact DT|apply has_id_hi]). lia.
+    assert (Hhi : hi T < length ns) by (eapply denotes_lt; [exact DT|apply has_id_hi]). lia.
 Qed.
 
 Theorem c02_operator_expressions toks : operator_expression toks = true -> c02_agree toks = true.
